@@ -18,6 +18,25 @@
 #include <stdlib.h>
 #include <string.h>
 
+/* Typed comparison in statistics order (metadata/statistics.c) */
+extern int carquet_statistics_compare_values(
+    carquet_physical_type_t type,
+    const void* a, size_t a_len,
+    const void* b, size_t b_len);
+
+/* Width of a fixed-width physical type, 0 for the byte array types */
+static int32_t fixed_width(carquet_physical_type_t type) {
+    switch (type) {
+        case CARQUET_PHYSICAL_BOOLEAN: return 1;
+        case CARQUET_PHYSICAL_INT32:   return 4;
+        case CARQUET_PHYSICAL_INT64:   return 8;
+        case CARQUET_PHYSICAL_INT96:   return 12;
+        case CARQUET_PHYSICAL_FLOAT:   return 4;
+        case CARQUET_PHYSICAL_DOUBLE:  return 8;
+        default:                       return 0;
+    }
+}
+
 /* ============================================================================
  * ColumnIndex Structure
  * ============================================================================
@@ -532,23 +551,29 @@ carquet_status_t carquet_column_index_page_might_match(
 
     *might_match = true;  /* Assume match by default */
 
+    /* Values are compared in the column's type order; a stored bound whose
+     * length is not the type's width cannot be compared and is ignored. */
+    int32_t width = fixed_width(builder->type);
+
     /* If query max < page min, no match */
-    if (max_value && builder->min_values[page_idx]) {
-        int cmp = memcmp(max_value, builder->min_values[page_idx],
-                         value_len < builder->min_value_lens[page_idx] ?
-                         value_len : builder->min_value_lens[page_idx]);
-        if (cmp < 0 || (cmp == 0 && value_len < builder->min_value_lens[page_idx])) {
+    if (max_value && builder->min_values[page_idx] &&
+        (width == 0 || builder->min_value_lens[page_idx] == width)) {
+        int cmp = carquet_statistics_compare_values(builder->type,
+            max_value, (size_t)value_len,
+            builder->min_values[page_idx], (size_t)builder->min_value_lens[page_idx]);
+        if (cmp < 0) {
             *might_match = false;
             return CARQUET_OK;
         }
     }
 
     /* If query min > page max, no match */
-    if (min_value && builder->max_values[page_idx]) {
-        int cmp = memcmp(min_value, builder->max_values[page_idx],
-                         value_len < builder->max_value_lens[page_idx] ?
-                         value_len : builder->max_value_lens[page_idx]);
-        if (cmp > 0 || (cmp == 0 && value_len > builder->max_value_lens[page_idx])) {
+    if (min_value && builder->max_values[page_idx] &&
+        (width == 0 || builder->max_value_lens[page_idx] == width)) {
+        int cmp = carquet_statistics_compare_values(builder->type,
+            min_value, (size_t)value_len,
+            builder->max_values[page_idx], (size_t)builder->max_value_lens[page_idx]);
+        if (cmp > 0) {
             *might_match = false;
             return CARQUET_OK;
         }
